@@ -161,6 +161,7 @@ def run_tlc(module, cfg=None, files=None, workers=16, timeout=600, simulate=None
         m = re.match(r"^<(\w+) line \d+, col \d+ to line \d+, col \d+ of module (\w+)>: (\d+):(\d+)", line)
         if m:
             r.coverage[m.group(1)] = (int(m.group(3)), int(m.group(4)))
+    r.violated = list(dict.fromkeys(r.violated))
     # simulation mode prints a different summary
     if simulate is not None and r.generated == 0:
         m = re.search(r"(\d+) states checked", p.stdout)
